@@ -291,7 +291,7 @@ impl Check for MatchCheck {
                     });
                     match r {
                         Err(p) => {
-                            if p.loc.contains("/verif/sim/") {
+                            if p.is_harness() {
                                 panic!("harness panic: {} at {}", p.msg, p.loc);
                             }
                             out.discarded = Some("panic_in_match".into());
@@ -349,7 +349,7 @@ impl Check for MatchCheck {
                     });
                     match r {
                         Err(p) => {
-                            if p.loc.contains("/verif/sim/") {
+                            if p.is_harness() {
                                 panic!("harness panic: {} at {}", p.msg, p.loc);
                             }
                             out.discarded = Some("panic_in_match".into());
